@@ -1,7 +1,8 @@
 (* the executable checker says exactly what the property clauses say *)
 From Coq Require Import String.
 From Coq Require Import List NArith Bool Arith Lia.
-From VF Require Import Matcher.Model Matcher.EvalFacts C18.Entry C18.HoldsProof.
+From VF Require Import Matcher.Model Matcher.ParserFacts Matcher.EvalFacts Matcher.PrintLex Matcher.PrintParse
+  Matcher.ParseSound C18.Entry C18.HoldsProof.
 Import ListNotations.
 
 Lemma ostr_eqb_eq a b : ostr_eqb a b = true <-> a = b.
@@ -71,4 +72,29 @@ Proof.
   rewrite <- H1, <- H2, <- H3. split.
   - intros H. apply app_eq_nil in H as [Ha H]. apply app_eq_nil in H as [Hb Hc]. auto.
   - intros (-> & -> & ->). reflexivity.
+Qed.
+
+(* ---------- validb: the hypotheses of C18_holds, decided from the case ---------- *)
+Lemma err_eqb_eq a b : err_eqb a b = true -> a = b.
+Proof. destruct a, b; cbn; try congruence. intros H. apply str_eqb_eq in H. now subst. Qed.
+Lemma res_eqb_eq a b : res_eqb a b = true -> a = b.
+Proof.
+  destruct a as [x|x], b as [y|y]; cbn; try congruence.
+  - intros H. apply expr_eqb_eq in H. now subst.
+  - intros H. apply err_eqb_eq in H. now subst.
+Qed.
+
+Lemma validb_valid c : validb c = true -> valid c.
+Proof.
+  unfold validb, valid. intros H.
+  apply andb_prop in H as [H H4]. apply andb_prop in H as [H H3]. apply andb_prop in H as [H1 H2].
+  split; [now apply res_eqb_eq|]. split.
+  { destruct (reference c) as [e|[|t|]]; cbn; auto. discriminate. }
+  split.
+  { apply orb_prop in H3 as [H3|H3]; [left; now apply negb_true_iff in H3|now right]. }
+  destruct (c_expected c) as [e|]; [|exact I].
+  destruct (reference c) as [e'|x] eqn:Er; [|discriminate].
+  apply expr_eqb_eq in H4. subst e'. unfold reference in Er.
+  destruct (parse_sound documented (table_compile (c_table c)) eq_refl _ _ Er) as (t & w0 & w3 & H).
+  exists t, w0, w3. tauto.
 Qed.
